@@ -66,7 +66,8 @@ CLAIMED["C15"] = (
     "interprocedural MIR taint analysis (untrusted buffers / integers with source sites, flow-sensitive reaching "
     "definitions, callee summaries, type-based struct-field registry) with dominating-guard discharge: R-ALLOC, R-GUARD, R-PANIC, "
     "R-DIV (zero-test before an untrusted divisor), R-ARITH.mul (unchecked multiplication feeding a bound check, through helpers); "
-    "CFG cut rule for variable-length integer decoders (R-TRUNC)",
+    "CFG cut rule for variable-length integer decoders (R-TRUNC); divisors read from zero-writable fields (R-DIV field form); "
+    "call-graph cycle rule with depth-budget recognition (R-RECURSE); who-may-call rule on assume_init of uninitialised non-MaybeUninit types (R-UNINIT)",
     "static rule over the closure of ~200 parser entry points: every allocation size, bounds-checked index, slice range, "
     "unsafe pointer/length operand and unwrap that derives from untrusted bytes must be dominated by a deciding comparison "
     "against a trusted bound (refusing on the large side), clamped by a trusted value, or narrow by type",
@@ -76,7 +77,8 @@ CLAIMED["C15"] = (
 CLAIMED["C19"] = (
     "MIR must-precede / must-pass-through analysis over resolved callees (R-ORDER), open-time size-guard rule (R-GUARD.open) "
     "and the taint analysis with header fields as untrusted integers (incl. R-ARITH.mul); CFG cut rule for var_uint readers (R-TRUNC); "
-    "who-may-call rule on Drop for MmapVec (R-ORDER.drop); continuation threshold of the var_uint writer (R-VARINT.threshold)",
+    "who-may-call rule on Drop for MmapVec (R-ORDER.drop); continuation threshold of the var_uint writer (R-VARINT.threshold); "
+    "length check after take(n).read_to_end (R-TAKEEXACT); truncation of freshly created backing files (R-CREATE.truncate)",
     "static rules: growth persists capacity only after File::set_len and remap; writers sync before returning Ok; "
     "MmapVec::open compares the header's capacity with the file length before Ok; loaders never size or index from header "
     "fields unchecked",
@@ -87,7 +89,7 @@ CLAIMED["C13"] = (
     "MIR layout-event agreement between writers and readers (R-PAIR, strong projection), per-marker arm agreement for constant "
     "one-byte presence/kind markers (R-PAIR.marker), inverse dispatch tables (R-VARIANT.inverse) and flush-before-seek ordering of the "
     "buffering writer (R-ORDER); continuation threshold of LEB128 writers (R-VARINT.threshold); interprocedural "
-    "use-of-count rule for partial writes (R-PARTIALWRITE)",
+    "use-of-count rule for partial writes (R-PARTIALWRITE); clamped-count provenance of element loops (R-CLAMPLOOP)",
     "static rules over MIR: every DataOutput::write_K x DataInput::read_K implementor pair and every serialize/deserialize "
     "pair of the io files must produce the same sequence of multi-byte integer widths+endianness, primitive kinds and nested "
     "(de)serialisations; each VarIntStrategy variant must decode with the helper family it encodes with",
@@ -146,7 +148,8 @@ CLAIMED["C03"] = (
 CLAIMED["C08"] = (
     "MIR analysis of compare-exchange pops on intrusive free lists (R-ABA: version tag or live lock; single head snapshot), tag advance "
     "and relink-inside-the-retry-loop on push, atomic check-then-act and load/modify/store (R-ATOM), check-then-act across two "
-    "critical sections of one lock (R-LOCKSPLIT)",
+    "critical sections of one lock (R-LOCKSPLIT), no access through a block pointer after its release call (R-RELEASE), "
+    "un-track-before-publish ordering in the secure pool (R-ORDER.untrack)",
     "static rule over MIR: every CAS whose new value is read through the loaded head must carry a +1 version tag derived from the "
     "loaded word (directly or in a crate-local helper) or run under a live lock guard; tagged lists advance the tag on every CAS",
     "one structural clause of C08 (free structures stay well formed under pre-emption between head load and CAS); linearizability, "
